@@ -136,6 +136,65 @@ def choose(existing, requested, path, twice=False):
     return v
 
 
+def chain(existing):
+    """TorConfig.create_socks_endpoint after a history on the same TorConfig: a new port was requested and added, and,
+    back to back with it, another one that Tor refused; Tor announces what it accepted (CONF_CHANGED before the 250 OK,
+    as it does).  The request under test is a third, new port: Tor's listeners at that time are the existing ones."""
+    lines = list(existing["lines"])
+    proto = TorControlProtocol()
+    tr = proto_helpers.StringTransport()
+    sim = simtor.SimTor(proto, tr)
+    sim.info.update({"config/names": ["SocksPort Dependent", "SocksPortLines Dependent", "__SocksPort Dependent"],
+                     "config/defaults": ["SocksPort 9050"], "onions/current": "", "onions/detached": ""})
+    store = list(lines)
+    sim.conf["socksport"] = store if store else None
+    sim.conf["__socksport"] = ["9050"]
+    sets = []
+
+    def setconf(line):
+        vals = [v for k, v in cfgh.parse_setconf(line) if k.lower() == "socksport"]
+        sets.append(vals)
+        if any(v.startswith("unix:/nonexistent") for v in vals):
+            return b"552 Unacceptable option value: Failed to bind one of the listener ports.\r\n"
+        store[:] = vals
+        sim.conf["socksport"] = list(store)
+        ev = "650-CONF_CHANGED\r\n" + "".join("650-SocksPort=%s\r\n" % v for v in vals) + "650 OK\r\n"
+        return ev.encode() + b"250 OK\r\n"
+    sim.handlers["SETCONF"] = setconf
+    proto.makeConnection(tr)
+    sim.pump()
+    reactor = oa.PortReactor()
+    cd = TorConfig.from_protocol(proto)
+    sim.pump()
+    config = cd.result
+    fired, err = [], False
+    try:
+        d1 = config.create_socks_endpoint(reactor, "9061")
+        d2 = config.create_socks_endpoint(reactor, "unix:/nonexistent/dir/socks")
+        d1.addErrback(lambda f: None)
+        d2.addErrback(lambda f: None)
+        sim.pump()
+        before = list(store)
+        nprior = len(sets)
+        d = config.create_socks_endpoint(reactor, "9062")
+        d.addBoth(fired.append)
+        sim.pump()
+    except Exception:
+        err = True
+        before, nprior = list(store), len(sets)
+    ep = None
+    if fired and not isinstance(fired[0], failure.Failure):
+        ep = fired[0]
+    else:
+        err = True
+    mine = sets[nprior:]
+    return dict(part="a", path="config", twice=False, chain=True, base=lines, reqfirst="9062", lookupfails=False,
+                existing=[entry(l) for l in before], requested="9062", reqep=ep_record_from_text("9062"),
+                obs=dict(setconf=mine[0] if mine else [], nset=len(mine),
+                         ep=ep_record(ep) if ep is not None else dict(kind="none", host="", port=0, path=""),
+                         newport=0, newtext="0", err=err))
+
+
 def ep_record_from_text(text):
     e = entry(text)
     return dict(kind="unix" if e["kind"] == "unix" else "tcp", host=e["host"], port=e["port"], path=e["path"])
